@@ -320,10 +320,10 @@ pub fn units() -> Vec<Unit> {
             Const("MAX_FCNT_GAP"),
             Const("ADR_ACK_LIMIT"),
             Const("ADR_ACK_DELAY"),
-            CustomMulti(crate::statics::handle_rx_oversized),
+            // (builder N: `handle_rx_oversized` and `fcnt_up_exhausted` — single comparisons of `handle_rx` /
+            // `rx2_complete` — are superseded by the whole-method units Gen.SessionRx / Gen.SessionFn)
             CustomMulti(crate::statics::rx2_complete_backoff_due),
             CustomMulti(crate::statics::prepare_buffer_adr_ack_req),
-            CustomMulti(crate::statics::fcnt_up_exhausted),
         ],
     },
     // ---- builder L (tie A for whole stateful methods, state-passing translation)
@@ -482,5 +482,400 @@ pub fn units() -> Vec<Unit> {
             IoMode(false),
         ],
     },
+    // ---- builder N (tie A for more stateful methods)
+    // C11: `Otaa::handle_rx` — the join step.  The crypto stays abstract: the radio buffer is what
+    // `check_mic_and_decrypt_in_place` yields on it under a key (`none` = `Err`), the decrypted view exposes
+    // its fields and the two key derivations as functions; the region is an abstract carrier with the
+    // three methods the join step calls (`RegionOps`).  Translated for real: `Otaa::handle_rx`,
+    // `Session::derive_new`, `Session::new`, `DLSettings::{rx1_dr_offset, rx2_data_rate}`,
+    // `del_to_delay_ms`, `NetworkCredentials::appkey`, `Uplink::default()`.
+    Unit {
+        module: "Gen.OtaaFn",
+        file: "lorawan-device/src/mac/otaa.rs",
+        more_files: vec![
+            "lorawan-device/src/mac/mod.rs",
+            "lorawan-device/src/mac/session.rs",
+            "lorawan-device/src/mac/uplink/mod.rs",
+            "lorawan-device/src/region/constants.rs",
+            "lorawan-encoding/src/types.rs",
+            "lorawan-encoding/src/packet_length.rs",
+        ],
+        imports: vec!["LoraVerif.Gen.Region"],
+        items: vec![
+            ExternEnum("DR"),
+            ExternFnX("u8::into_DR", "u8.into_DR", &[("v", "u8")], "DR", &[], true),
+            Const("RECEIVE_DELAY1"),
+            Const("FOPTS_MAX_LEN"),
+            Struct("Configuration"),
+            Newtype("DLSettings"),
+            Fn("DLSettings::rx1_dr_offset"),
+            Fn("DLSettings::rx2_data_rate"),
+            Raw(OTAA_RAW),
+            ExternStructRaw("AES128", &[]),
+            ExternStructRaw("AppKey", &[]),
+            ExternStructRaw("NwkSKey", &[]),
+            ExternStructRaw("AppSKey", &[]),
+            ExternStructRaw("DevAddr", &[]),
+            ExternStructRaw("DevNonce", &[]),
+            ExternStructRaw("DefaultCrypto", &[]),
+            ExternStructRaw("CfList", &[]),
+            ExternStructRaw("Datarate", &[]),
+            ExternStructRaw("DecryptedJoinAcceptPayload", &[]),
+            ExternStructRaw("RxBytes", &[]),
+            ExternStructRaw("RadioBuffer", &[]),
+            ExternStructRaw("RegionCfg", &[]),
+            ExternFn("AppKey::inner", "AppKey.inner", &[("self", "AppKey")], "AES128"),
+            ExternFn("DefaultCrypto::new", "DefaultCrypto.new", &[("key", "AES128")], "DefaultCrypto"),
+            ExternFn("RadioBuffer::as_mut_for_read", "RadioBuffer.as_mut_for_read", &[("self", "RadioBuffer")], "RxBytes"),
+            ExternFn("DecryptedJoinAcceptPayload::check_mic_and_decrypt_in_place", "RxBytes.check_mic_and_decrypt_in_place", &[("buf", "RxBytes"), ("crypto", "DefaultCrypto")], "Result<DecryptedJoinAcceptPayload, Error>"),
+            ExternFn("DecryptedJoinAcceptPayload::c_f_list", "DecryptedJoinAcceptPayload.c_f_list", &[("self", "DecryptedJoinAcceptPayload")], "Option<CfList>"),
+            ExternFn("DecryptedJoinAcceptPayload::rx_delay", "DecryptedJoinAcceptPayload.rx_delay", &[("self", "DecryptedJoinAcceptPayload")], "u8"),
+            ExternFn("DecryptedJoinAcceptPayload::dl_settings", "DecryptedJoinAcceptPayload.dl_settings", &[("self", "DecryptedJoinAcceptPayload")], "DLSettings"),
+            ExternFn("DecryptedJoinAcceptPayload::dev_addr", "DecryptedJoinAcceptPayload.dev_addr", &[("self", "DecryptedJoinAcceptPayload")], "DevAddr"),
+            ExternFn("DecryptedJoinAcceptPayload::derive_nwkskey", "DecryptedJoinAcceptPayload.derive_nwkskey", &[("self", "DecryptedJoinAcceptPayload"), ("dev_nonce", "DevNonce"), ("crypto", "DefaultCrypto")], "NwkSKey"),
+            ExternFn("DecryptedJoinAcceptPayload::derive_appskey", "DecryptedJoinAcceptPayload.derive_appskey", &[("self", "DecryptedJoinAcceptPayload"), ("dev_nonce", "DevNonce"), ("crypto", "DefaultCrypto")], "AppSKey"),
+            ExternFnX("RegionCfg::process_join_accept", "RegionOps.process_join_accept", &[("self", "RegionCfg"), ("c_f_list", "Option<CfList>")], "", &["self"], true),
+            ExternFn("RegionCfg::rx1_dr_offset_validate", "RegionOps.rx1_dr_offset_validate", &[("self", "RegionCfg"), ("value", "u8")], "Option<u8>"),
+            ExternFn("RegionCfg::get_datarate", "RegionOps.get_datarate", &[("self", "RegionCfg"), ("dr", "u8")], "Option<Datarate>"),
+            Struct("Uplink"),
+            Struct("Session"),
+            StructPartial("NetworkCredentials", &["appkey"]),
+            Fn("Session::new"),
+            Fn("Session::derive_new"),
+            Struct("Otaa"),
+            // in otaa.rs `Configuration` is the region's and `super::Configuration` the MAC's
+            Alias("super::Configuration", "Configuration"),
+            Alias("Configuration", "RegionCfg"),
+            Fn("Otaa::handle_rx"),
+        ],
+    },
+    // C12 / C06: `Session::prepare_buffer` — the header of the uplink.  Abstract: frame encryption and MIC
+    // (`DataFrame::build_into` is a parameter `codec`), the radio buffer (`TxBufOps`), `next_lower_datarate`
+    // and the iterator pipeline of `clear_mac_commands(true)` (as in Gen.SessionFn / Gen.UplinkFn).
+    Unit {
+        module: "Gen.SessionTx",
+        file: "lorawan-device/src/mac/session.rs",
+        more_files: vec![
+            "lorawan-device/src/mac/mod.rs",
+            "lorawan-device/src/mac/uplink/mod.rs",
+            "lorawan-device/src/region/constants.rs",
+            "lorawan-encoding/src/creator.rs",
+            "lorawan-encoding/src/parser.rs",
+            "lorawan-encoding/src/types.rs",
+            "lorawan-encoding/src/packet_length.rs",
+        ],
+        imports: vec!["LoraVerif.Gen.Region"],
+        items: vec![
+            ExternEnum("DR"),
+            Const("ADR_ACK_LIMIT"),
+            Const("FOPTS_MAX_LEN"),
+            Alias("FcntUp", "u32"),
+            Alias("NonZeroU8", "u8"),
+            Struct("Configuration"),
+            Raw(SESSION_TX_RAW1),
+            ExternStructRaw("AES128", &[]),
+            ExternStructRaw("NwkSKey", &[]),
+            ExternStructRaw("AppSKey", &[]),
+            ExternStructRaw("DevAddr", &[]),
+            ExternStructRaw("DefaultCrypto", &[]),
+            ExternStructRaw("RegionCfg", &[]),
+            Alias("region::Configuration", "RegionCfg"),
+            ExternFn("next_lower_datarate", "next_lower_datarate", &[("region", "region::Configuration"), ("current", "DR")], "Option<DR>"),
+            ExternFn("NwkSKey::inner", "NwkSKey.inner", &[("self", "NwkSKey")], "AES128"),
+            ExternFn("AppSKey::inner", "AppSKey.inner", &[("self", "AppSKey")], "AES128"),
+            ExternFn("DefaultCrypto::new", "DefaultCrypto.new", &[("key", "AES128")], "DefaultCrypto"),
+            Struct("SendData"),
+            Enum("DataFrameType"),
+            EnumData("Payload"),
+            Struct("DataFrame"),
+            Raw(SESSION_TX_RAW2),
+            ExternStructRaw("RadioBuffer", &[]),
+            ExternFn("DataFrame::build_into", "codec.build_into", &[("self", "DataFrame"), ("buf", "[u8]"), ("nwk", "DefaultCrypto"), ("app", "Option<DefaultCrypto>")], "Result<[u8], Error>"),
+            ExternFnX("RadioBuffer::clear", "TxBufOps.clear", &[("self", "RadioBuffer")], "", &["self"], false),
+            ExternFnX("RadioBuffer::extend_from_slice", "TxBufOps.extend_from_slice", &[("self", "RadioBuffer"), ("buf", "[u8]")], "Result<(), ()>", &["self"], false),
+            Struct("Uplink"),
+            Raw("/-- the iterator pipeline of `clear_mac_commands(true)`: (queue, accumulator so far) ↦ accumulator -/\nopaque retained_pipeline : List Int → List Int → List Int\n"),
+            AbstractStmt("parse_uplink_mac_commands(", "retained_pipeline", &["self.pending", "data"], &["data"]),
+            Struct("Session"),
+            Fn("Session::prepare_buffer"),
+        ],
+    },
+    // C05 / C07: `Session::handle_rx` — acceptance test and order of the state updates.  Abstract: parsing,
+    // MIC validity and decryption (the buffer is what `EncryptedDataPayload::parse` / `decrypt_in_place` yield on
+    // it), the handling of the MAC commands (`Session::handle_downlink_macs`: a method of `MacOps`), the region
+    // (carrier of `MacOps`), `next_lower_datarate`.  Translated for real: `Session::handle_rx`,
+    // `Session::rx2_complete`, `next_fcnt_down`, the `Uplink` helpers.
+    Unit {
+        module: "Gen.SessionRx",
+        file: "lorawan-device/src/mac/session.rs",
+        more_files: vec![
+            "lorawan-device/src/mac/mod.rs",
+            "lorawan-device/src/mac/uplink/mod.rs",
+            "lorawan-device/src/lib.rs",
+            "lorawan-device/src/region/constants.rs",
+            "lorawan-encoding/src/parser.rs",
+            "lorawan-encoding/src/types.rs",
+            "lorawan-encoding/src/packet_length.rs",
+        ],
+        imports: vec!["LoraVerif.Gen.Region"],
+        items: vec![
+            ExternEnum("DR"),
+            Const("ADR_ACK_LIMIT"),
+            Const("ADR_ACK_DELAY"),
+            Const("MAX_FCNT_GAP"),
+            Const("MHDR_LEN"),
+            Const("MIC_LEN"),
+            Const("FOPTS_MAX_LEN"),
+            Alias("FcntDown", "u32"),
+            EnumData("Response"),
+            Struct("Configuration"),
+            Struct("Downlink"),
+            EnumData("FrmPayload"),
+            Raw(SESSION_RX_RAW1),
+            ExternStructRaw("AES128", &[]),
+            ExternStructRaw("NwkSKey", &[]),
+            ExternStructRaw("AppSKey", &[]),
+            ExternStructRaw("DevAddr", &[]),
+            ExternStructRaw("DefaultCrypto", &[]),
+            ExternStructRaw("Fhdr", &[]),
+            ExternStructRaw("EncryptedDataPayload", &[]),
+            ExternStructRaw("DecryptedDataPayload", &[]),
+            ExternStructRaw("RxBytes", &[]),
+            ExternStructRaw("RadioBuffer", &[]),
+            ExternStructRaw("MacCmdBytes", &[]),
+            ExternStructRaw("RegionCfg", &[]),
+            Alias("region::Configuration", "RegionCfg"),
+            ExternFn("NwkSKey::inner", "NwkSKey.inner", &[("self", "NwkSKey")], "AES128"),
+            ExternFn("AppSKey::inner", "AppSKey.inner", &[("self", "AppSKey")], "AES128"),
+            ExternFn("DefaultCrypto::new", "DefaultCrypto.new", &[("key", "AES128")], "DefaultCrypto"),
+            ExternFn("RadioBuffer::as_mut_for_read", "RadioBuffer.as_mut_for_read", &[("self", "RadioBuffer")], "RxBytes"),
+            ExternFn("EncryptedDataPayload::parse", "RxBytes.parse", &[("bytes", "RxBytes")], "Result<EncryptedDataPayload, Error>"),
+            ExternFn("EncryptedDataPayload::as_bytes", "EncryptedDataPayload.as_bytes", &[("self", "EncryptedDataPayload")], "[u8]"),
+            ExternFn("EncryptedDataPayload::is_confirmed", "EncryptedDataPayload.is_confirmed", &[("self", "EncryptedDataPayload")], "bool"),
+            ExternFn("EncryptedDataPayload::fhdr", "EncryptedDataPayload.fhdr", &[("self", "EncryptedDataPayload")], "Fhdr"),
+            ExternFn("EncryptedDataPayload::validate_mic", "EncryptedDataPayload.validate_mic", &[("self", "EncryptedDataPayload"), ("crypto", "DefaultCrypto"), ("fcnt", "u32")], "bool"),
+            ExternFn("Fhdr::fcnt", "Fhdr.fcnt", &[("self", "Fhdr")], "u16"),
+            ExternFn("Fhdr::f_opts", "Fhdr.f_opts", &[("self", "Fhdr")], "[u8]"),
+            ExternFn("DecryptedDataPayload::decrypt_in_place", "RxBytes.decrypt_in_place", &[("bytes", "RxBytes"), ("nwk", "Option<DefaultCrypto>"), ("app", "Option<DefaultCrypto>"), ("fcnt", "u32")], "Result<DecryptedDataPayload, Error>"),
+            ExternFn("DecryptedDataPayload::fhdr", "DecryptedDataPayload.fhdr", &[("self", "DecryptedDataPayload")], "Fhdr"),
+            ExternFn("DecryptedDataPayload::f_port", "DecryptedDataPayload.f_port", &[("self", "DecryptedDataPayload")], "Option<u8>"),
+            ExternFn("DecryptedDataPayload::frm_payload", "DecryptedDataPayload.frm_payload", &[("self", "DecryptedDataPayload")], "FrmPayload"),
+            ExternFn("parse_downlink_mac_commands", "MacCmdBytes.mk", &[("data", "[u8]")], "MacCmdBytes"),
+            ExternFn("Vec::from_slice", "Downlink.data_from_slice", &[("s", "[u8]")], "Result<Vec<u8, 256>, ()>"),
+            Struct("Uplink"),
+            Raw("/-- the iterator pipeline of `clear_mac_commands(true)` (not reached from `handle_rx`) -/\nopaque retained_pipeline : List Int → List Int → List Int\n"),
+            AbstractStmt("parse_uplink_mac_commands(", "retained_pipeline", &["self.pending", "data"], &["data"]),
+            Struct("Session"),
+            Raw(SESSION_RX_RAW2),
+            ExternFn("next_lower_datarate", "MacOps.next_lower", &[("region", "region::Configuration"), ("current", "DR")], "Option<DR>"),
+            ExternFnX("Session::handle_downlink_macs", "MacOps.handle_downlink_macs", &[("self", "Session"), ("configuration", "Configuration"), ("region", "region::Configuration"), ("cmds", "MacCmdBytes"), ("snr", "i8"), ("answers_full", "bool")], "", &["self", "configuration", "region", "answers_full"], true),
+            Fn("Session::handle_rx"),
+        ],
+    },
+    // C08 / C10: `DynamicChannelPlan::handle_new_channel` and `channel_dl_update` (NewChannelReq / DlChannelReq on
+    // dynamic plans).  Abstract: the region's parameters (`R::NUM_JOIN_CHANNELS`, `R::datarates()`, the band test
+    // behind `frequency_valid`; a parameter `R`) and the bit operations of `ChannelMask` (`set_channel`,
+    // `is_enabled`; a parameter `mops`).  Translated for real: the two handlers, `DataRateRange::{min,max}_data_rate`,
+    // `Channel::new_with_dr`.
+    Unit {
+        module: "Gen.DynPlanFn",
+        file: "lorawan-device/src/region/dynamic_channel_plans/mod.rs",
+        more_files: vec!["lorawan-device/src/region/mod.rs", "lorawan-device/src/region/constants.rs", "lorawan-encoding/src/types.rs"],
+        imports: vec!["LoraVerif.Gen.Region"],
+        items: vec![
+            ExternEnum("DR"),
+            Const("NUM_CHANNELS_DYNAMIC"),
+            Const("NUM_DATARATES"),
+            Newtype("DataRateRange"),
+            Fn("DataRateRange::max_data_rate"),
+            Fn("DataRateRange::min_data_rate"),
+            Struct("Channel"),
+            Fn("Channel::new_with_dr"),
+            Raw(DYN_PLAN_RAW1),
+            ExternStructRaw("ChannelMask", &[]),
+            ExternStructRaw("Datarate", &[]),
+            StructPartial("DynamicChannelPlan", &["channels", "channel_mask"]),
+            Raw(DYN_PLAN_RAW2),
+            ExternConst("R::NUM_JOIN_CHANNELS", "u8", "R.NUM_JOIN_CHANNELS"),
+            ExternFn("R::datarates", "R.datarates", &[], "[Option<Datarate>]"),
+            ExternFn("DynamicChannelPlan::frequency_valid", "DynamicChannelPlan.frequency_valid R", &[("self", "DynamicChannelPlan"), ("freq", "u32")], "bool"),
+            ExternFnX("ChannelMask::set_channel", "mops.set_channel", &[("self", "ChannelMask"), ("channel", "usize"), ("set", "bool")], "", &["self"], true),
+            ExternFn("ChannelMask::is_enabled", "mops.is_enabled", &[("self", "ChannelMask"), ("index", "usize")], "Result<bool, Error>"),
+            TraitFn("RegionHandler", "DynamicChannelPlan", "channel_dl_update"),
+            TraitFn("RegionHandler", "DynamicChannelPlan", "handle_new_channel"),
+        ],
+    },
     ]
 }
+
+/// Lean text of the abstract part of `Gen.DynPlanFn`
+const DYN_PLAN_RAW1: &str = r#"/-- `ChannelMask<9>`: its bytes; the bit operations on it are abstract (`MaskFns`) -/
+structure ChannelMask where
+  bytes : List Int
+  deriving DecidableEq, Repr
+"#;
+const DYN_PLAN_RAW2: &str = r#"/-- what the two handlers read of the plan's region type `R: DynamicChannelRegion` and of the band test the
+plan was constructed with (`State::new` wires it; `Gen.RegionStatic`) -/
+structure DynRegion where
+  NUM_JOIN_CHANNELS : Int
+  datarates : List (Option Datarate)
+  frequency_valid : Int → Bool
+variable (R : DynRegion)
+/-- `DynamicChannelPlan::frequency_valid(&self, f)`: calls the stored function pointer -/
+def DynamicChannelPlan.frequency_valid (self : DynamicChannelPlan) (freq : Int) : Bool := R.frequency_valid freq
+/-- the two `ChannelMask` methods the handlers call: `set_channel` (`none` = out-of-bounds panic) and
+`is_enabled` (`none` = `Err(InvalidIndex)`) -/
+structure MaskFns where
+  set_channel : ChannelMask → Int → Bool → Option ChannelMask
+  is_enabled : ChannelMask → Int → Option Bool
+variable (mops : MaskFns)
+"#;
+
+/// Lean text of the abstract part of `Gen.SessionRx`
+const SESSION_RX_RAW1: &str = r#"/-! Keys and addresses are opaque identities; a crypto context is the key it is bound to.  Parsing,
+MIC validity and decryption are abstract: the received bytes are what the parser yields on them. -/
+structure AES128 where
+  id : Int
+  deriving DecidableEq, Repr
+structure NwkSKey where
+  inner : AES128
+  deriving DecidableEq, Repr
+structure AppSKey where
+  inner : AES128
+  deriving DecidableEq, Repr
+structure DevAddr where
+  id : Int
+  deriving DecidableEq, Repr
+structure DefaultCrypto where
+  new ::
+  key : AES128
+  deriving DecidableEq, Repr
+structure Fhdr where
+  fcnt : Int
+  f_opts : List Int
+  deriving DecidableEq, Repr
+/-- a byte string `EncryptedDataPayload::parse` accepted: what `handle_rx` reads of it, and for which
+(crypto context, 32-bit counter) its MIC verifies -/
+structure EncryptedDataPayload where
+  as_bytes : List Int
+  is_confirmed : Bool
+  fhdr : Fhdr
+  validate_mic : DefaultCrypto → Int → Bool
+/-- the decrypted frame -/
+structure DecryptedDataPayload where
+  fhdr : Fhdr
+  f_port : Option Int
+  frm_payload : FrmPayload
+/-- the received bytes: the result of `EncryptedDataPayload::parse` and of
+`DecryptedDataPayload::decrypt_in_place(bytes, nwk, app, fcnt)` on them (`none` = `Err`) -/
+structure RxBytes where
+  parse : Option EncryptedDataPayload
+  decrypt_in_place : Option DefaultCrypto → Option DefaultCrypto → Int → Option DecryptedDataPayload
+structure RadioBuffer where
+  as_mut_for_read : RxBytes
+/-- `parse_downlink_mac_commands(bytes)`: the command iterator is the byte string it runs over -/
+structure MacCmdBytes where
+  bytes : List Int
+  deriving DecidableEq, Repr
+/-- `heapless::Vec::<u8, 256>::from_slice` (the capacity is that of `Downlink::data`; the translator
+checks it against the field when the value is stored) -/
+def Downlink.data_from_slice (s : List Int) : Option (List Int) := if (s.length : Int) ≤ 256 then some s else none
+"#;
+const SESSION_RX_RAW2: &str = r#"/-- what `handle_rx` calls on the region and on itself for the MAC commands (abstract here):
+`next_lower_datarate(region, dr)` and `Session::handle_downlink_macs(&mut self, configuration, region,
+cmds, snr, answers_full)` (`none` = panic) -/
+class MacOps (ρ : Type) where
+  next_lower : ρ → DR → Option DR
+  handle_downlink_macs : Session → Configuration → ρ → MacCmdBytes → Int → Bool → Option (Session × Configuration × ρ × Bool)
+variable {RegionCfg : Type} [MacOps RegionCfg]
+"#;
+
+/// Lean text of the abstract part of `Gen.SessionTx`
+const SESSION_TX_RAW1: &str = r#"/-! Keys and addresses are opaque identities; a crypto context is the key it is bound to. -/
+structure AES128 where
+  id : Int
+  deriving DecidableEq, Repr
+structure NwkSKey where
+  inner : AES128
+  deriving DecidableEq, Repr
+structure AppSKey where
+  inner : AES128
+  deriving DecidableEq, Repr
+structure DevAddr where
+  id : Int
+  deriving DecidableEq, Repr
+structure DefaultCrypto where
+  new ::
+  key : AES128
+  deriving DecidableEq, Repr
+/-- what the translated method observes of `region::Configuration`: the result of
+`next_lower_datarate(region, dr)` (a loop over `region.get_datarate`; abstract here) -/
+structure RegionCfg where
+  next_lower : DR → Option DR
+def next_lower_datarate (region : RegionCfg) (current : DR) : Option DR := region.next_lower current
+"#;
+const SESSION_TX_RAW2: &str = r#"/-- frame encryption and MIC stay abstract: `DataFrame::build_into(buf, nwk, app)` is a parameter
+(`none` = `Err`) -/
+structure FrameCodec where
+  build_into : DataFrame → List Int → DefaultCrypto → Option DefaultCrypto → Option (List Int)
+variable (codec : FrameCodec)
+/-- what `prepare_buffer` calls on the radio buffer (`extend_from_slice`: the `Result` and the buffer) -/
+class TxBufOps (β : Type) where
+  clear : β → β
+  extend_from_slice : β → List Int → (Option Unit × β)
+variable {RadioBuffer : Type} [TxBufOps RadioBuffer]
+"#;
+
+/// Lean text of the abstract part of `Gen.OtaaFn`
+const OTAA_RAW: &str = r#"/-! The crypto and the region stay abstract.  Keys, addresses and nonces are opaque identities. -/
+structure AES128 where
+  id : Int
+  deriving DecidableEq, Repr
+structure AppKey where
+  inner : AES128
+  deriving DecidableEq, Repr
+structure NwkSKey where
+  id : Int
+  deriving DecidableEq, Repr
+structure AppSKey where
+  id : Int
+  deriving DecidableEq, Repr
+structure DevAddr where
+  id : Int
+  deriving DecidableEq, Repr
+structure DevNonce where
+  value : Int
+  deriving DecidableEq, Repr
+/-- `DefaultCrypto::new(key)`: a crypto context is the key it is bound to -/
+structure DefaultCrypto where
+  new ::
+  key : AES128
+  deriving DecidableEq, Repr
+/-- the CFList of a JoinAccept as the parser exposes it (`lorawan::parser::CfList`) -/
+inductive CfList where
+  | DynamicChannel (freqs : List Int)
+  | FixedChannel (mask : List Int)
+  deriving DecidableEq, Repr
+/-- the decrypted view of a JoinAccept: the fields `Otaa::handle_rx` reads and the two key derivations
+(functions of the DevNonce and the crypto context; AES itself is not modelled) -/
+structure DecryptedJoinAcceptPayload where
+  c_f_list : Option CfList
+  rx_delay : Int
+  dl_settings : DLSettings
+  dev_addr : DevAddr
+  derive_nwkskey : DevNonce → DefaultCrypto → NwkSKey
+  derive_appskey : DevNonce → DefaultCrypto → AppSKey
+/-- the received bytes: what `check_mic_and_decrypt_in_place` yields on them under a crypto context
+(`none` = `Err`: not a JoinAccept, or the MIC does not verify) -/
+structure RxBytes where
+  check_mic_and_decrypt_in_place : DefaultCrypto → Option DecryptedJoinAcceptPayload
+structure RadioBuffer where
+  as_mut_for_read : RxBytes
+/-- what the join step calls on `region::Configuration` (macro-dispatched to the plan in the source;
+abstract here): `process_join_accept` (`&mut self`; `none` = panic), `rx1_dr_offset_validate`, `get_datarate` -/
+class RegionOps (ρ : Type) where
+  process_join_accept : ρ → Option CfList → Option ρ
+  rx1_dr_offset_validate : ρ → Int → Option Int
+  get_datarate : ρ → Int → Option Datarate
+variable {RegionCfg : Type} [RegionOps RegionCfg]
+"#;
